@@ -2478,9 +2478,22 @@ class StateEngine(object):
                     # escape [ to allow things like a literal [hello]
                     # Also escape ? as only * is a wildcard in StringMatches
                     # and use fnmatchcase() as the match is case sensitive.
-                    value = value.replace("[", "[[]").replace("\\*", "[*]")
-                    value = value.replace("?", "[?]")
-                    if fnmatch.fnmatchcase(variable, value):
+                    # A backslash escapes a following * or \\ (an escaped
+                    # backslash followed by * is a literal \\ then a wildcard).
+                    pattern = ""
+                    i = 0
+                    while i < len(value):
+                        c = value[i]
+                        if c == "\\" and value[i + 1:i + 2] in ("*", "\\"):
+                            c = value[i + 1]
+                            i += 1
+                            pattern += "[" + c + "]"
+                        elif c == "[" or c == "?":
+                            pattern += "[" + c + "]"
+                        else:
+                            pattern += c
+                        i += 1
+                    if fnmatch.fnmatchcase(variable, pattern):
                         return next
 
                 def asl_choice_TimestampEquals(value):
